@@ -467,15 +467,21 @@ def run(ck):
         "(onConnect/onWelcome/onChallenge/onJoin/onLeave/onDisconnect) returning or raising per a random configuration, two "
         "transport behaviours after close(); plus the systematic family: 6 canonical conversations x 10 configurations x "
         "every single fault (11) at every position (asyncio: with 0/1/3 loop iterations between ops; quick: the whole "
-        "family under the default configuration, a sample under the other nine).  Run on the real "
+        "family under the default configuration, a sample under the other nine); histories of TWO lives of one session "
+        "object (a new transport handed to the object after it lost the first one; random: 30%, systematic: two "
+        "conversations); the matrix every API call (13: the six request kinds, unsubscribe of a non-last / last handler, "
+        "unregister, cancel, leave, disconnect) x every ending (5) x transport behaviour (2) on a rich local state (two "
+        "handlers on one subscription id, a second subscription, two registrations, a pending request of four kinds).  "
+        "Each life is judged separately by the same per-life oracle.  Run on the real "
         "ApplicationSession under Twisted and asyncio and on the Gallina model; compared per op: callbacks (with the "
         "session id visible inside onLeave), messages sent, transport close, completion of every tracked future, API "
         "exceptions; end state (session id, transport, goodbye flag, id generator, table sizes).  non-trivial = a session "
         "was joined or aborted; distinct = distinct (framework, configuration, history)")
     ck.extra_tb += [
-        "modelled, not verified: txaio continuation semantics per framework as written in Model/Session.v; one transport "
-        "connection per session object; transports deliver no message after onClose; user callbacks are synchronous and do "
-        "not re-enter the API; explicit re-join() on the same object is not modelled",
+        "modelled, not verified: txaio continuation semantics per framework as written in Model/Session.v; a session object "
+        "gets a new transport only after it lost the previous one; transports deliver no message after onClose; user "
+        "callbacks are synchronous; life-cycle callbacks do not re-enter the API (request callbacks may: C04/C06 react "
+        "ops); an explicit second join() from user code inside one life is not modelled",
         "oracle assumptions: fake ITransport (raise-after-close or RawSocket-like acceptance after close()); virtual clock / loop of "
         "harness/impl/wampdrv.py; asyncio loop iteration = callbacks queued before it (like BaseEventLoop._run_once)",
         "translator: translators/wamp_types.py regenerated from the tree under test",
